@@ -53,7 +53,7 @@ ColorTerms ==
      ("fg" \notin t.sup => t.fg.st = "st") /\ ("bg" \notin t.sup => t.bg.st = "st")}
 ColorPars ==
   UNION {{P("colors", TRUE, FALSE, t, Win(0, 0), FALSE, pre, <<sc>>) :
-            sc \in Scheds(Replies(t, ReqColors)), pre \in Preloads} : t \in ColorTerms}
+            sc \in Scheds(Replies(t, ReqColors)), pre \in {<<120, 27>>}} : t \in ColorTerms}
 
 NameTerms ==
   {t \in {[BaseTerm EXCEPT !.sup = s, !.form = f, !.xst = x] :
